@@ -210,4 +210,172 @@ theorem Src_scan_cost_and_step_limit (y : Y) :
       simpa [Y.toRat?] using this
     | _ => simp [Y.intLike?] at hi
 
+/-- `_is_valid_host_address` on integers, and its refusal of everything that is not of type `int` -/
+theorem Src_valid_host_address (subnets : List Nat) (ys yh : Y) :
+    SrcLoad.ScenarioLoader._is_valid_host_address subnets ys yh =
+      match ys.exactInt?, yh.exactInt? with
+      | some s, some h => validHostAddr subnets s h
+      | _, _ => false := by
+  unfold SrcLoad.ScenarioLoader._is_valid_host_address
+  rw [Src_valid_subnet_id]
+  cases ys with
+  | int s =>
+    simp only [Y.exactInt?]
+    cases yh with
+    | int h =>
+      obtain ⟨n, hn⟩ : ∃ n, subnets.getD s.toNat 0 = n := ⟨_, rfl⟩
+      have hz : s.toNat = subnets.length → n = 0 := by
+        intro hs; rw [← hn, hs]; simp
+      simp only [Y.exactInt?, validSubnetId, validHostAddr, PyRt.ylt, PyRt.yge, Y.toRat?, PyRt.yNat, Y.intLike?,
+        Option.getD_some, Option.isSome_some, Bool.not_true, Bool.false_or, hn]
+      have e1 : ((h : Rat) < ((0 : Int) : Rat)) ↔ h < 0 := Rat.intCast_lt_intCast
+      have e3 : (((n : Int) : Rat) ≤ (h : Rat)) ↔ (n : Int) ≤ h := Rat.intCast_le_intCast
+      have e4 : ((0 : Rat) ≤ (h : Rat)) ↔ 0 ≤ h := Rat.intCast_nonneg
+      have e1' : ((h : Rat) < 0) ↔ h < 0 := by
+        have := @Rat.intCast_lt_intCast h 0
+        simpa using this
+      by_cases h1 : 1 ≤ s
+      · by_cases h2 : s ≤ (subnets.length : Int)
+        · by_cases h3 : s < (subnets.length : Int)
+          · by_cases h4 : 0 ≤ h <;> by_cases h5 : h < (n : Int) <;>
+              simp [h1, h2, h3, h4, h5, e1, e1', e3] <;> omega
+          · have hn0 : n = 0 := hz (by omega)
+            subst hn0
+            by_cases h4 : 0 ≤ h <;> simp [h1, h2, h3, h4, e1, e1', e3, e4] <;> omega
+        · have h3 : ¬ s < (subnets.length : Int) := by omega
+          simp [h1, h2, h3]
+      · simp [h1]
+    | _ => simp [Y.exactInt?]
+  | _ => simp [Y.exactInt?]
+
+theorem any_congr' {α : Type} (l : List α) (p q : α → Bool) (h : ∀ x ∈ l, p x = q x) : l.any p = l.any q := by
+  induction l with
+  | nil => rfl
+  | cons x xs ih =>
+    simp only [List.any_cons]
+    rw [h x (List.mem_cons_self ..), ih (fun y hy => h y (List.mem_cons_of_mem _ hy))]
+
+theorem all_congr' {α : Type} (l : List α) (p q : α → Bool) (h : ∀ x ∈ l, p x = q x) : l.all p = l.all q := by
+  induction l with
+  | nil => rfl
+  | cons x xs ih =>
+    simp only [List.all_cons]
+    rw [h x (List.mem_cons_self ..), ih (fun y hy => h y (List.mem_cons_of_mem _ hy))]
+
+theorem any_or_split {α : Type} (l : List α) (p q : α → Bool) :
+    l.any (fun x => p x || q x) = (l.any p || l.any q) := by
+  induction l with
+  | nil => rfl
+  | cons x xs ih =>
+    simp only [List.any_cons, ih]
+    cases p x <;> cases q x <;> cases xs.any p <;> cases xs.any q <;> rfl
+
+theorem any_snd_zip (k : Nat) (t : List Y) (f : Y → Bool) :
+    ((List.range' k t.length).zip t).any (fun q => f q.2) = t.any f := by
+  have : ((List.range' k t.length).zip t).map Prod.snd = t := by
+    rw [List.map_snd_zip]; simp
+  conv => rhs; rw [← this]
+  rw [List.any_map]
+  rfl
+
+theorem forEach_find {α β : Type} (l : List α) (p : α → Bool) (v : β) :
+    PyRt.forEach (β := β) l () (fun x _ => if p x then .ret v else .next ()) =
+      if l.any p then .ret v else .next () := by
+  induction l with
+  | nil => simp [PyRt.forEach]
+  | cons x xs ih =>
+    simp only [PyRt.forEach, List.any_cons]
+    by_cases hp : p x = true
+    · simp [hp]
+    · simp [hp, ih]
+
+/-- only scalars compare equal to anything -/
+theorem pyIn_scalar (s : Y) (l : List Y) (h : pyIn s l = true) : s.isScalar = true := by
+  obtain ⟨y, _, hy⟩ := List.any_eq_true.mp h
+  cases s with
+  | list l' => cases y <;> simp [Y.pyEq, Y.toRat?] at hy
+  | map m' => cases y <;> simp [Y.pyEq, Y.toRat?] at hy
+  | _ => rfl
+
+/-- some pair of different positions holds equal elements -/
+def dupPair (k : Nat) (l : List Y) : Bool :=
+  ((List.range' k l.length).zip l).any fun p => ((List.range' k l.length).zip l).any fun q => p.1 != q.1 && p.2.pyEq q.2
+
+theorem range'_zip_ge (k n : Nat) (l : List Y) (p : Nat × Y) (h : p ∈ (List.range' (k + 1) n).zip l) : p.1 ≠ k := by
+  have := (List.of_mem_zip h).1
+  rw [List.mem_range'_1] at this
+  omega
+
+theorem dupPair_eq (k : Nat) (l : List Y) : dupPair k l = !noDupY l := by
+  induction l generalizing k with
+  | nil => rfl
+  | cons a t ih =>
+    unfold dupPair
+    simp only [List.length_cons, List.range'_succ, List.zip_cons_cons, List.any_cons, noDupY, bne_self_eq_false,
+      Bool.false_and, Bool.false_or]
+    have hrest : ∀ p ∈ (List.range' (k + 1) t.length).zip t, (k != p.1) = true := by
+      intro p hp
+      have := range'_zip_ge k t.length t p hp
+      simp [bne_iff_ne, Ne.symm this]
+    have hrest' : ∀ p ∈ (List.range' (k + 1) t.length).zip t, (p.1 != k) = true := by
+      intro p hp
+      have := range'_zip_ge k t.length t p hp
+      simp [bne_iff_ne, this]
+    have h1 : ((List.range' (k + 1) t.length).zip t).any (fun q => k != q.1 && a.pyEq q.2) = pyIn a t := by
+      rw [any_congr' _ _ (fun q => a.pyEq q.2) (fun q hq => by simp [hrest q hq])]
+      exact any_snd_zip (k + 1) t (fun y => a.pyEq y)
+    have h2 : ((List.range' (k + 1) t.length).zip t).any (fun p =>
+        (p.1 != k && p.2.pyEq a) || ((List.range' (k + 1) t.length).zip t).any fun q => p.1 != q.1 && p.2.pyEq q.2) =
+        (pyIn a t || dupPair (k + 1) t) := by
+      rw [any_congr' _ _ (fun p => p.2.pyEq a || ((List.range' (k + 1) t.length).zip t).any fun q => p.1 != q.1 && p.2.pyEq q.2)
+        (fun p hp => by simp [hrest' p hp])]
+      rw [any_or_split]
+      congr 1
+      rw [any_congr' _ _ (fun p => a.pyEq p.2) (fun p _ => pyEq_symm p.2 a)]
+      exact any_snd_zip (k + 1) t (fun y => a.pyEq y)
+    rw [h1, h2, ih (k + 1)]
+    cases pyIn a t <;> cases noDupY t <;> rfl
+
+/-- `_is_valid_firewall_setting`: a list of distinct known services -/
+theorem Src_fw_setting (services : List Y) (f : Y) :
+    SrcLoad.ScenarioLoader._is_valid_firewall_setting services f = fwSettingOk services f := by
+  unfold SrcLoad.ScenarioLoader._is_valid_firewall_setting fwSettingOk
+  cases f with
+  | list l =>
+    simp only [Y.isList, Bool.not_true, Bool.false_eq_true, if_false, listOf]
+    have ha : l.all (fun s => s.isScalar && pyIn s services) = l.all (fun s => pyIn s services) := by
+      apply all_congr'
+      intro s _
+      cases h : pyIn s services
+      · simp
+      · simp [pyIn_scalar s services h]
+    rw [ha, forEach_all' l _ (fun s => pyIn s services) (fun x _ => rfl)]
+    cases hall : l.all (fun s => pyIn s services)
+    · simp
+    · simp only [if_true, Bool.true_and]
+      have hin : ∀ (p : Nat × Y),
+          (match PyRt.forEach (β := Bool) (PyRt.enumerate l) () (fun q _ =>
+              if (p.1 != q.1 && p.2.pyEq q.2) = true then PyRt.Ctl.ret false else PyRt.Ctl.next ()) with
+            | .ret v => (PyRt.Ctl.ret v : PyRt.Ctl Bool Unit)
+            | .next _ => PyRt.Ctl.next ()) =
+          if (PyRt.enumerate l).any (fun q => p.1 != q.1 && p.2.pyEq q.2) then .ret false else .next () := by
+        intro p
+        rw [forEach_find]
+        cases (PyRt.enumerate l).any (fun q => p.1 != q.1 && p.2.pyEq q.2) <;> rfl
+      show (match PyRt.forEach (β := Bool) (PyRt.enumerate l) () (fun p _ =>
+          match PyRt.forEach (β := Bool) (PyRt.enumerate l) () (fun q _ =>
+              if (p.1 != q.1 && p.2.pyEq q.2) = true then PyRt.Ctl.ret false else PyRt.Ctl.next ()) with
+            | .ret v => (PyRt.Ctl.ret v : PyRt.Ctl Bool Unit)
+            | .next _ => PyRt.Ctl.next ()) with
+          | .ret v => v
+          | .next _ => true) = noDupY l
+      simp only [hin]
+      rw [forEach_find]
+      have hd := dupPair_eq 0 l
+      unfold dupPair at hd
+      unfold PyRt.enumerate
+      rw [List.range_eq_range', hd]
+      cases noDupY l <;> rfl
+  | _ => simp [Y.isList]
+
 end NASim
